@@ -134,7 +134,19 @@ def mon_c13(case, ots, drained_tail):
             if left or not frames or not frames[-1].complete or frames[-1].opcode != 8:
                 return 'closed-while-reply-unsent: op %d %s returned ConnectionClosed with the Close frame not (fully) on the wire of a live transport' % (i, v.ops[i])
             break
-    if not drained_tail or not owes_close:
+    if not drained_tail:
+        return None
+    if not owes_close:
+        # a pong parked behind a momentarily full buffer must still go out once the transport accepts again
+        if v.ended_by(last) or v.hard_error_by(last) or any(o.startswith('wf:') or o.startswith('wpo:') for o in v.ops):
+            return None
+        if n < 2 or v.ops[last] != 'f' or v.ops[last - 1] != 'f' or ots[last].res != 'ok' or ots[last - 1].res != 'ok':
+            return None
+        pings = [ws.unhx(ot.res[6:]) for op, ot in zip(v.ops, ots) if op == 'r' and ot.res.startswith('ok:PI:')]
+        if pings:
+            wire_pongs = [f.payload for f in v.frames if f.opcode == 10 and f.complete]
+            if pings[-1] not in wire_pongs:
+                return 'pong-lost: ping %s was delivered, the transport accepted again and %d flushes returned Ok, but its pong never reached the wire' % (ws.hx(pings[-1]), drained_tail)
         return None
     if v.ended_by(last) or v.hard_error_by(last):
         return None
@@ -150,6 +162,8 @@ def mon_c13(case, ots, drained_tail):
     for ot in ots[last - 1:]:
         if any((e.startswith('W:') and ':e:' in e) or e.startswith('F:e:') for e in ot.events):
             return None
+    if not owes_close:
+        return None
     has_close = any(f.opcode == 8 and f.complete for f in v.frames)
     if not has_close:
         return 'close-lost%s: closing began at op %d (%s) but after the transport accepted again and %d %s calls the wire holds no Close frame' % (
